@@ -114,7 +114,7 @@ package ports
 //@ ghost var pxErr error
 //@ ghost var pxStarted bool
 //@ interface ProxyService.ProxyRequestToEndpoints(ctx, w, r, endpoints, stats, rlog)
-//@   modifies gvar pxCalls, gvar pxEndpoints, gvar pxPath, gvar pxBody, gvar pxErr, gvar pxStarted, object w, object stats, ghost(w).started, ghost(w).status, ghost(w).hdr[all], ghost remaining, ghost backing
+//@   modifies r.Body, gvar pxCalls, gvar pxEndpoints, gvar pxPath, gvar pxBody, gvar pxErr, gvar pxStarted, object w, object stats, ghost(w).started, ghost(w).status, ghost(w).hdr[all], ghost remaining, ghost backing
 //@   records pxCalls = old(pxCalls) + 1
 //@   records pxEndpoints = endpoints
 //@   records pxPath = r.URL.Path
